@@ -88,7 +88,7 @@ inductive Dec (α : Type) where
   | ok (a : α)
   | error (e : DecErr)
   | unmodelled
-deriving Repr
+deriving Repr, DecidableEq
 
 def maxCursorAdvance : Nat := 50000
 def cursorVersion : Nat := 1
@@ -798,13 +798,13 @@ def keyEq (a b : κ) : Bool := !lt a b && !lt b a
 structure Cur (κ : Type) where
   key : κ
   returned : Nat
-deriving Repr
+deriving Repr, DecidableEq
 
 structure Resp (κ : Type) where
   hits : List κ
   next : Option (Cur κ)
   total : Nat
-deriving Repr
+deriving Repr, DecidableEq
 
 inductive PageErr where
   | stale      -- "stale or invalid cursor for this result set" (`saw_cursor` false)
